@@ -63,6 +63,9 @@ FLAVOURS = {
                              reqCert=True, ccred="c_ecdsa", alpn=True,
                              sni="example.com"),
     "tls12-dhe": dict(v="tls12", kx=["dhe_rsa"]),
+    # certificate requested, client has none (empty Certificate message)
+    "tls12-reqcert-nocert": dict(v="tls12", kx=["ecdhe_rsa"], reqCert=True),
+    "tls10-reqcert-nocert": dict(v="tls10", kx=["rsa"], reqCert=True),
     "tls12-anon-dh": dict(v="tls12", anon=True, kx=["dh_anon"]),
     "tls12-anon-ecdh": dict(v="tls12", anon=True, kx=["ecdh_anon"]),
     "tls12-srp": dict(v="tls12", srp=True),
@@ -119,7 +122,8 @@ def opts_for(name):
         server["cred"] = f.get("cred", "rsa")
     if f.get("reqCert"):
         server["reqCert"] = True
-        client["cred"] = f["ccred"]
+        if f.get("ccred"):
+            client["cred"] = f["ccred"]
     if f.get("alpn"):
         client["alpn"] = [bytearray(b"h2"), bytearray(b"http/1.1")]
         server["alpn"] = [bytearray(b"http/1.1")]
